@@ -30,6 +30,11 @@ fn main() {
             };
             std::process::exit(code);
         }
+        "traces" => {
+            let seed: u64 = args[2].parse().unwrap_or(1);
+            let n: usize = args[3].parse().unwrap_or(10);
+            harness::props_c19::print_traces(seed, n);
+        }
         "replay" => {
             if args.len() < 4 {
                 usage();
